@@ -2,6 +2,10 @@
 
   table <lifting-table.json>         : every (scheme, table, active, draw) of Lifting.tla on the real lifting classes
   walker <walker-table.json>         : every rate vector of Walker.tla on the real Walker
+  flows <lifting-table.json> <out>   : what the real lifting classes select for every table of Lifting.tla, every active
+                                       unit and every unit piece of the draw range -> records for TraceLifting.tla
+  handler <n> <out>                  : the same through the real TwoCompositeObjectSummedBoundingPotentialEventHandler
+                                       (scripted pair derivatives, 2+2 and 3+3 point masses, every point mass active)
 """
 import json
 import random
@@ -144,5 +148,175 @@ def walker(path):
     json.dump(dict(evaluations=n, fails=fails[:30]), sys.stdout)
 
 
+class Draws:
+    """random.uniform replaced by planned quantiles: plan = [(j, n), ...] -> lo + (j + 1/2) / n * (hi - lo); j = "lo" /
+    "hi" give the end points.  Calls beyond the plan repeat its last entry."""
+
+    def __init__(self):
+        self.plan, self.i = [], 0
+
+    def set(self, *plan):
+        self.plan, self.i = list(plan), 0
+
+    def __call__(self, lo, hi):
+        j, n = self.plan[min(self.i, len(self.plan) - 1)]
+        self.i += 1
+        if j == "lo":
+            return lo
+        if j == "hi":
+            return hi
+        if hi - lo == n:
+            return lo + (j + 0.5)
+        return lo + (j + 0.5) / n * (hi - lo)
+
+
+def _plans(scheme, t, a):
+    """(plans of the interior draws, plan of lower end, plan of upper end) for active unit a of table t."""
+    pos = sum(x for x in t if x > 0)
+    if scheme == "ratio":
+        mid = (0, 1)
+        return [[mid, (j, pos)] for j in range(pos)], [mid, ("lo", 1)], [mid, ("hi", 1)]
+    n = t[a - 1]
+    return [[(j, n)] for j in range(n)], [("lo", 1)], [("hi", 1)]
+
+
+def flows(path, out):
+    tab = json.load(open(path))
+    model = {}
+    for row in tab["rows"]:
+        model.setdefault(tuple(row["t"]), {})[row["a"]] = row
+    long_lived = {"inside": InsideFirstLifting(), "outside": OutsideFirstLifting(), "ratio": RatioLifting()}
+    fresh_cls = {"inside": InsideFirstLifting, "outside": OutsideFirstLifting, "ratio": RatioLifting}
+    draws = Draws()
+    random.uniform = draws
+    n, differs = 0, []
+    try:
+        with open(out, "w") as fh:
+            for t, rows in model.items():
+                for scheme in ("inside", "outside", "ratio"):
+                    for kind in ("reused", "fresh"):
+                        sel, ends = [], []
+                        for a in sorted(rows):
+                            def select(plan):
+                                obj = long_lived[scheme] if kind == "reused" else fresh_cls[scheme]()
+                                draws.set(*plan)
+                                obj.reset()
+                                for i, rate in enumerate(t, start=1):
+                                    obj.insert(float(rate), ("unit", i), i == a)
+                                return obj.get_active_identifier()[1]
+                            interior, lo, hi = _plans(scheme, t, a)
+                            got = [select(p) for p in interior]
+                            n += len(got) + 2
+                            sel.append([a, got])
+                            ends.append([a, select(lo), select(hi)])
+                            want = ([io[0 if scheme == "inside" else 1] for io in rows[a]["io"]] if scheme != "ratio"
+                                    else rows[a]["ra"])
+                            if got != want and len(differs) < 5:
+                                differs.append(dict(scheme=scheme, kind=kind, t=list(t), a=a, got=got, model=want))
+                        fh.write(json.dumps(dict(scheme=scheme, who="%s lifting class, %s object" % (scheme, kind),
+                                                 t=list(t), sel=sel, ends=ends)) + "\n")
+    finally:
+        random.uniform = _real_uniform
+    json.dump(dict(evaluations=n, differs=differs), open(out + ".notes.json", "w"))
+
+
+def handler(count, out):
+    """Scripted pair derivatives M[i][j] (point mass i of object 0 moving against point mass j of object 1; the reverse
+    pair has the opposite sign), so the factor derivatives are q(0, i) = sum_j M[i][j], q(1, j) = -sum_i M[i][j]."""
+    import itertools
+    import jellyfysh.setting as setting
+    from jellyfysh.base.node import Node
+    from jellyfysh.base.time import Time
+    from jellyfysh.base.unit import Unit
+    from jellyfysh.setting import hypercubic_setting
+    from jellyfysh.event_handler.two_composite_object_summed_bounding_potential_event_handler import \
+        TwoCompositeObjectSummedBoundingPotentialEventHandler as Handler
+
+    class Pot:
+        number_separation_arguments = 1
+        number_charge_arguments = 2
+        potential_change_required = True
+        M = None
+
+        def derivative(self, velocity, separation, c1, c2):
+            i, j = int(c1), int(c2)
+            return float(self.M[i][j - 10]) if i < 10 else -float(self.M[j][i - 10])
+
+    class Bound(Pot):
+        def derivative(self, velocity, separation, c1, c2):
+            return 1000.0
+
+        def displacement(self, velocity, separation, c1, c2, potential_change):
+            return 0.0
+
+    count = int(count)
+    rng = random.Random(5)
+    draws = Draws()
+    n = 0
+    fh = open(out, "w")
+    for size in (2, 3):
+        hypercubic_setting.HypercubicSetting(beta=1.0, dimension=3, system_length=20.0)
+        setting.set_number_of_root_nodes(2)
+        setting.set_number_of_nodes_per_root_node(size)
+        setting.set_number_of_node_levels(2)
+        mats = list(itertools.product((-1, 0, 1), repeat=size * size))
+        if len(mats) > count:
+            mats = [mats[i] for i in sorted(rng.sample(range(len(mats)), count))]
+        pot = Pot()
+        units = [(m, k) for m in range(2) for k in range(size)]
+
+        def in_state(active):
+            branches = []
+            for m in range(2):
+                local = m == active[0]
+                root = Node(Unit(identifier=(m,), position=[5.0 + 3 * m, 5.0, 5.0],
+                                 velocity=[1.0 / size, 0.0, 0.0] if local else None,
+                                 time_stamp=Time.from_float(0.0) if local else None), weight=1)
+                for k in range(size):
+                    act = (m, k) == active
+                    root.add_child(Node(Unit(identifier=(m, k), position=[5.0 + 3 * m + 0.1 * k, 5.0 + 0.2 * k, 5.0],
+                                             charge={"q": float(10 * m + k)}, velocity=[1.0, 0.0, 0.0] if act else None,
+                                             time_stamp=Time.from_float(0.0) if act else None), weight=1.0 / size))
+                branches.append(root)
+            return branches
+
+        handlers = {s: Handler(potential=pot, bounding_potential=Bound(), lifting=c(), charge="q")
+                    for s, c in (("inside", InsideFirstLifting), ("outside", OutsideFirstLifting), ("ratio", RatioLifting))}
+        real_exp = random.expovariate
+        random.uniform, random.expovariate = draws, (lambda beta: 1.0)
+        try:
+            for flat in mats:
+                M = [list(flat[i * size:(i + 1) * size]) for i in range(size)]
+                pot.M = M
+                t = [sum(M[i]) for i in range(size)] + [-sum(M[i][j] for i in range(size)) for j in range(size)]
+                if not any(x > 0 for x in t):
+                    continue
+                for scheme, h in handlers.items():
+                    sel, ends = [], []
+                    for a, x in enumerate(t, start=1):
+                        if x <= 0:
+                            continue
+
+                        def select(plan):
+                            draws.set(("lo", 1), *plan)           # first draw: the confirmation (lower end: confirmed)
+                            h.send_event_time(in_state(units[a - 1]))
+                            outs = h.send_out_state()
+                            moving = [c.value.identifier for r in outs for c in r.children if c.value.velocity is not None]
+                            assert len(moving) == 1, moving
+                            return units.index(moving[0]) + 1
+                        interior, lo, hi = _plans(scheme, t, a)
+                        got = [select(p) for p in interior]
+                        n += len(got) + 2
+                        sel.append([a, got])
+                        ends.append([a, select(lo), select(hi)])
+                    fh.write(json.dumps(dict(scheme=scheme, who="composite-object handler, %d+%d point masses, pair "
+                                             "derivatives %s" % (size, size, M), t=t, sel=sel, ends=ends)) + "\n")
+        finally:
+            random.uniform, random.expovariate = _real_uniform, real_exp
+            setting.reset()
+    fh.close()
+    json.dump(dict(evaluations=n, differs=[]), open(out + ".notes.json", "w"))
+
+
 if __name__ == "__main__":
-    {"table": table, "walker": walker}[sys.argv[1]](sys.argv[2])
+    {"table": table, "walker": walker, "flows": flows, "handler": handler}[sys.argv[1]](*sys.argv[2:])
